@@ -128,7 +128,11 @@ func replay(in, out string) {
 				runBigCase(t, newMeta(""), rand.New(rand.NewSource(ks+1)), bc, nq, "replay", Ev{"kind": pr["kind"], "nreq": pr["nreq"], "kseed": pr["kseed"], "prop": pr["prop"]})
 			}
 		case "calibration":
-			cal := calibrateLegacy("/repo/trie/testdata")
+			dir := "/repo/trie/testdata"
+			if d := os.Getenv("SLIM_TESTDATA"); d != "" {
+				dir = d
+			}
+			cal := calibrateLegacy(dir)
 			t.Emit(Ev{"ev": "calibration", "v3ok": cal.V3OK, "v3bad": cal.V3Bad, "v10ok": cal.V10OK, "v10bad": cal.V10Bad})
 		case "legacy":
 			c = caseFromNew(e)
